@@ -4,6 +4,7 @@ in parallel on scratch copies under $TMPDIR (removed afterwards).  The recorded 
 tools_seeded.py / tools_refactor.py, which apply each patch to /repo itself and undo it.
 
 usage: tools_corpus.py [seeded|refactors|all] [name-prefix ...] [--keep DIR]
+       tools_corpus.py cross [name-prefix ...]     every rewrite under the checks of the 19 other properties
 """
 import json, os, shutil, subprocess, sys, tempfile
 from concurrent.futures import ThreadPoolExecutor
@@ -30,8 +31,54 @@ def one(args):
     return kind, name, rc, ' | '.join(x[:260] for x in v[:3])
 
 
+PROPS = ['C%02d' % i for i in range(1, 21)]
+
+
+def one_cross(args):
+    """a behaviour-preserving rewrite made for one property, run under every OTHER property's check"""
+    kind, name, base = args
+    d = os.path.join(base, 'x-' + name)
+    os.makedirs(d)
+    shutil.copytree('/repo/bitcoin', os.path.join(d, 'bitcoin'), ignore=shutil.ignore_patterns('__pycache__', 'tests'))
+    rc, out = sh(['patch', '-p1', '-s', '-i', os.path.join(VERIF, kind, name, 'patch.diff')], cwd=d)
+    if rc:
+        return [(kind, name, 'no-apply', out[:200])]
+    res = []
+    own = name.split('-')[0]
+    for pid in PROPS:
+        if pid == own:
+            continue
+        rc, out = sh([os.path.join(VERIF, 'check'), pid, '--no-evidence', '--root', d], cwd=VERIF)
+        v = [l.strip() for l in out.splitlines() if l.startswith('  rule=') or l.startswith('ANALYSIS-ERROR')]
+        res.append((kind, '%s@%s' % (name, pid), rc, ' | '.join(x[:260] for x in v[:2])))
+    shutil.rmtree(d, ignore_errors=True)
+    return res
+
+
+def cross(prefixes):
+    base = tempfile.mkdtemp(prefix='pblint-cross-')
+    jobs = [('refactors', n, base) for n in sorted(os.listdir(os.path.join(VERIF, 'refactors')))
+            if os.path.isdir(os.path.join(VERIF, 'refactors', n)) and (not prefixes or any(n.startswith(p) for p in prefixes))]
+    try:
+        with ThreadPoolExecutor(16) as ex:
+            res = [r for rr in ex.map(one_cross, jobs) for r in rr]
+    finally:
+        shutil.rmtree(base, ignore_errors=True)
+    tally = {}
+    for kind, name, rc, detail in res:
+        verdict = {0: 'silent', 1: 'FALSE-ALARM', 2: 'undecided'}.get(rc, str(rc))
+        tally[verdict] = tally.get(verdict, 0) + 1
+        if rc != 0:
+            print('cross %-16s %-12s %s' % (name, verdict, detail[:500]))
+    for k in sorted(tally):
+        print('cross %s: %d' % (k, tally[k]))
+    return 1 if tally.get('FALSE-ALARM') else 0
+
+
 def main():
     args = sys.argv[1:]
+    if args and args[0] == 'cross':
+        return cross(args[1:])
     keep = None
     if '--keep' in args:
         i = args.index('--keep')
